@@ -274,10 +274,10 @@ func rawURL(scheme, userinfo, host, port, path string) string {
 type env struct {
 	polIdx, seq int
 	pol         polSpec
-	ref *refPolicy
-	d   *dispatcher.HTTPDeliverer
-	tr  *recTransport
-	rs  *tableResolver
+	ref         *refPolicy
+	d           *dispatcher.HTTPDeliverer
+	tr          *recTransport
+	rs          *tableResolver
 }
 
 func newEnv(p polSpec, real dispatcher.EgressPolicy) *env {
